@@ -127,6 +127,7 @@ pub struct Case {
     pub desc: Descriptor<Key>,
     pub kind: &'static str,
     pub ms_dump: Vec<(String, Vec<u8>)>, // per leaf: prefix dump, script bytes
+    pub exts: Vec<String>,                // per leaf: the library's ExtData (ext::ext_str), read by the C09 driver
     pub keys: Vec<usize>,
     pub abs: Vec<u32>,
     pub rel: Vec<u32>,
@@ -134,6 +135,10 @@ pub struct Case {
 }
 
 fn mk<Ctx: ScriptContext>(w: &World, seed: u64, ci: CtxInfo, depth: u32, sane: bool) -> Option<Miniscript<Key, Ctx>> {
+    if let Some(t) = TMPL.with(|t| t.get()) {
+        // taproot trees take consecutive templates for their leaves
+        return mk_tmpl::<Ctx>(w, t + (seed % 3) as usize * usize::from(ci.tap), ci.tap, sane);
+    }
     let mut g = Gen::new(w, seed, ci);
     g.dup_keys = !sane && seed % 5 == 0;
     for _ in 0..20 {
@@ -146,12 +151,87 @@ fn mk<Ctx: ScriptContext>(w: &World, seed: u64, ci: CtxInfo, depth: u32, sane: b
     None
 }
 
+/// Directed shapes (C03 / C02): sane scripts whose spending paths differ in what a third party
+/// could supply — a signed branch next to a signature-free one (hashes, locks), thresholds mixing
+/// keys with hashes and locks.  `@i` is key i, `#s/#h/#r/#k j` the sha256 / hash256 / ripemd160 /
+/// hash160 image of preimage j.
+pub const TEMPLATES: &[&str] = &[
+    "and_v(v:pk(@1),or_i(sha256(#s0),pk(@0)))",
+    "and_v(v:pk(@2),or_i(pk(@0),and_v(v:older(10),and_v(v:sha256(#s0),and_v(v:sha256(#s1),sha256(#s2))))))",
+    "or_d(pk(@0),and_v(v:pk(@1),older(10)))",
+    "andor(pk(@0),sha256(#s0),pk(@1))",
+    "and_v(v:pk(@0),or_d(sha256(#s0),pk(@1)))",
+    "thresh(2,pk(@0),s:pk(@1),sln:older(10))",
+    "and_v(v:pk(@0),or_b(sha256(#s0),a:pk(@1)))",
+    "or_i(and_v(v:pk(@0),sha256(#s0)),and_v(v:pk(@1),after(9)))",
+    "and_v(v:pk(@0),andor(sha256(#s0),hash160(#k1),pk(@1)))",
+    "thresh(2,pk(@0),s:pk(@1),a:sha256(#s0))",
+    "and_v(or_c(pk(@0),v:sha256(#s0)),pk(@1))",
+    "or_d(multi(2,@0,@1),and_v(v:pk(@2),after(9)))",
+    "and_v(v:pk(@0),or_i(and_v(v:after(9),sha256(#s0)),pk(@1)))",
+    "c:or_i(and_v(v:sha256(#s0),pk_k(@0)),pk_k(@1))",
+    "t:or_c(pk(@0),and_v(v:pk(@1),or_c(pk(@2),v:hash160(#k0))))",
+    "and_v(v:pk(@0),or_i(hash256(#h1),or_i(ripemd160(#r2),pk(@1))))",
+    "andor(pk(@0),or_i(and_v(v:pkh(@1),hash160(#k0)),older(10)),pk(@2))",
+    "and_v(v:pk(@3),thresh(1,sha256(#s0),a:sha256(#s1),a:pk(@1)))",
+    "or_d(pk(@0),and_v(v:pkh(@1),or_i(sha256(#s0),older(4194314))))",
+    "and_b(pk(@0),a:or_i(sha256(#s1),pk(@2)))",
+    "and_v(v:pk(@0),or_d(pk(@1),and_v(v:sha256(#s0),after(500000001))))",
+    "thresh(2,pk(@0),a:or_i(sha256(#s0),pk(@1)),a:pk(@2))",
+];
+
+fn mk_tmpl<Ctx: ScriptContext>(w: &World, t: usize, tap: bool, sane: bool) -> Option<Miniscript<Key, Ctx>> {
+    use std::str::FromStr;
+    let mut s = TEMPLATES[t % TEMPLATES.len()].to_string();
+    if tap {
+        s = s.replace("multi(", "multi_a(");
+    }
+    for i in 0..6 {
+        s = s.replace(&format!("@{}", i), &w.key(i, tap).to_string());
+    }
+    for j in 0..N_PRE {
+        s = s.replace(&format!("#s{}", j), &w.sha256_img(j).to_string());
+        s = s.replace(&format!("#h{}", j), &w.hash256_img(j).to_string());
+        s = s.replace(&format!("#r{}", j), &w.ripemd160_img(j).to_string());
+        s = s.replace(&format!("#k{}", j), &w.hash160_img(j).to_string());
+    }
+    let m = Miniscript::<Key, Ctx>::from_str_insane(&s).ok()?;
+    if sane && m.validate(&Ctx::SANE).is_err() {
+        return None;
+    }
+    Some(m)
+}
+
+thread_local! {
+    /// template selected for the case being built (None: random generation)
+    static TMPL: std::cell::Cell<Option<usize>> = std::cell::Cell::new(None);
+}
+
+pub fn make_case_t(w: &World, seed: u64, kind_sel: u64, depth: u32, sane: bool, tmpl: Option<usize>) -> Option<Case> {
+    TMPL.with(|t| t.set(tmpl));
+    let r = make_case(w, seed, kind_sel, depth, sane);
+    TMPL.with(|t| t.set(None));
+    r
+}
+
 pub fn make_case(w: &World, seed: u64, kind_sel: u64, depth: u32, sane: bool) -> Option<Case> {
     let mut keys = Vec::new();
     let mut abs = Vec::new();
     let mut rel = Vec::new();
     let mut dumps = Vec::new();
+    let mut exts = Vec::new();
     let mut internal = None;
+    if kind_sel % 13 >= 10 {
+        let i = (seed % 6) as usize;
+        keys.push(i);
+        let k = w.key(i, false);
+        let (desc, kind): (Descriptor<Key>, &'static str) = match kind_sel % 13 {
+            10 => (Descriptor::new_pkh(k).ok()?, "pkh"),
+            11 => (Descriptor::new_wpkh(k).ok()?, "wpkh"),
+            _ => (Descriptor::new_sh_wpkh(k).ok()?, "shwpkh"),
+        };
+        return Some(Case { desc, kind, ms_dump: vec![], exts: vec![], keys, abs, rel, internal: None });
+    }
     let (desc, kind): (Descriptor<Key>, &'static str) = match kind_sel % 5 {
         0 | 1 => {
             let ci = CtxInfo { tap: false, legacy_like: false, n_keys: 6 };
@@ -159,6 +239,7 @@ pub fn make_case(w: &World, seed: u64, kind_sel: u64, depth: u32, sane: bool) ->
             collect_keys(w, &m, &mut keys);
             collect_locks(&m, &mut abs, &mut rel);
             dumps.push((dump_str(w, &m.node), m.encode().into_bytes()));
+            exts.push(crate::ext::ext_str(&m.ext));
             if kind_sel % 5 == 0 {
                 (Descriptor::new_wsh(m).ok()?, "wsh")
             } else {
@@ -171,6 +252,7 @@ pub fn make_case(w: &World, seed: u64, kind_sel: u64, depth: u32, sane: bool) ->
             collect_keys(w, &m, &mut keys);
             collect_locks(&m, &mut abs, &mut rel);
             dumps.push((dump_str(w, &m.node), m.encode().into_bytes()));
+            exts.push(crate::ext::ext_str(&m.ext));
             (Descriptor::new_sh(m).ok()?, "sh")
         }
         3 => {
@@ -179,6 +261,7 @@ pub fn make_case(w: &World, seed: u64, kind_sel: u64, depth: u32, sane: bool) ->
             collect_keys(w, &m, &mut keys);
             collect_locks(&m, &mut abs, &mut rel);
             dumps.push((dump_str(w, &m.node), m.encode().into_bytes()));
+            exts.push(crate::ext::ext_str(&m.ext));
             (Descriptor::new_bare(m).ok()?, "bare")
         }
         _ => {
@@ -190,6 +273,7 @@ pub fn make_case(w: &World, seed: u64, kind_sel: u64, depth: u32, sane: bool) ->
                 collect_keys(w, &m, &mut keys);
                 collect_locks(&m, &mut abs, &mut rel);
                 dumps.push((dump_str(w, &m.node), m.encode().into_bytes()));
+                exts.push(crate::ext::ext_str(&m.ext));
                 leaves.push(m);
             }
             let tree = match leaves.len() {
@@ -213,10 +297,10 @@ pub fn make_case(w: &World, seed: u64, kind_sel: u64, depth: u32, sane: bool) ->
             (Descriptor::new_tr(w.key(5, true), Some(tree)).ok()?, "tr")
         }
     };
-    Some(Case { desc, kind, ms_dump: dumps, keys, abs, rel, internal })
+    Some(Case { desc, kind, ms_dump: dumps, exts, keys, abs, rel, internal })
 }
 
-fn ecdsa_sig(w: &World, i: usize, msg: Message) -> bitcoin::ecdsa::Signature {
+pub fn ecdsa_sig(w: &World, i: usize, msg: Message) -> bitcoin::ecdsa::Signature {
     let sig = w.secp.sign_ecdsa(&msg, &w.sks[i]);
     bitcoin::ecdsa::Signature { signature: sig, sighash_type: EcdsaSighashType::All }
 }
@@ -226,7 +310,7 @@ pub struct TxEnv {
     pub sequence: Option<u32>,
 }
 
-fn lock_envs(c: &Case, rng: &mut Rng) -> Vec<TxEnv> {
+pub fn lock_envs(c: &Case, rng: &mut Rng) -> Vec<TxEnv> {
     let mut v = vec![TxEnv { lock_time: None, sequence: None }];
     if c.abs.is_empty() && c.rel.is_empty() {
         return v;
@@ -308,7 +392,13 @@ pub fn run(args: &[String]) {
         let cseed = seed.wrapping_mul(1_000_003).wrapping_add(c);
         let depth = 1 + (c % 4) as u32;
         let sane = c % 3 != 2;
-        let case = match catch_unwind(AssertUnwindSafe(|| make_case(&w, cseed, c, depth, sane))) {
+        // every fourth case is a directed template (sane), cycling through templates and output types
+        let tmpl = if c % 4 == 3 { Some((c / 4) as usize % TEMPLATES.len()) } else { None };
+        let (c_kind, sane) = match tmpl {
+            Some(_) => ([0u64, 1, 2, 4, 0][((c / 4) as usize / TEMPLATES.len()) % 5], true),
+            None => (c, sane),
+        };
+        let case = match catch_unwind(AssertUnwindSafe(|| make_case_t(&w, cseed, c_kind, depth, sane, tmpl))) {
             Ok(Some(x)) => x,
             Ok(None) => continue,
             Err(_) => {
@@ -319,16 +409,20 @@ pub fn run(args: &[String]) {
         for env in lock_envs(&case, &mut rng) {
             id += 1;
             let mut s = String::new();
-            emit_case(&w, &case, &env, id, sane, &mut rng, &mut s);
+            if catch_unwind(AssertUnwindSafe(|| emit_case(&w, &case, &env, id, sane, &mut rng, &mut s))).is_err() {
+                // an uncaught library panic while building the case: reported, never silently dropped
+                println!("END");
+                println!("PANIC emit_case case={} seed={} c={} desc={}", id, cseed, c, case.desc);
+                continue;
+            }
             print!("{}", s);
         }
     }
+    println!("DONE sat");
 }
 
-fn emit_case(w: &World, c: &Case, env: &TxEnv, id: u64, sane: bool, rng: &mut Rng, out: &mut String) {
-    let spk = c.desc.script_pubkey();
-    let value = Amount::from_sat(100_000);
-    let prevout = TxOut { value, script_pubkey: spk.clone() };
+/// The spending transaction of a case under a lock environment (one input, one output).
+pub fn spend_tx(env: &TxEnv) -> (Transaction, u32, u32) {
     let lock = env.lock_time.unwrap_or(0);
     let seq = env.sequence.unwrap_or(if env.lock_time.is_some() { 0xffff_fffe } else { 0xffff_ffff });
     let tx = Transaction {
@@ -342,26 +436,34 @@ fn emit_case(w: &World, c: &Case, env: &TxEnv, id: u64, sane: bool, rng: &mut Rn
         }],
         output: vec![TxOut { value: Amount::from_sat(90_000), script_pubkey: ScriptBuf::new() }],
     };
-    writeln!(out, "CASE {} {} sane={}", id, c.kind, sane as u8).unwrap();
-    writeln!(out, "DESC {}", c.desc).unwrap();
-    for (d, sbytes) in c.ms_dump.iter() {
-        writeln!(out, "MS {}", d).unwrap();
-        writeln!(out, "SCRIPT {}", hex(sbytes)).unwrap();
-    }
-    writeln!(out, "SPK {}", hex(spk.as_bytes())).unwrap();
-    writeln!(out, "TX 2 {} {}", lock, seq).unwrap();
-    writeln!(
-        out,
-        "LOCKS {} {}",
-        env.lock_time.map(|x| x.to_string()).unwrap_or("-".into()),
-        env.sequence.map(|x| x.to_string()).unwrap_or("-".into())
-    )
-    .unwrap();
-    // signatures
+    (tx, lock, seq)
+}
+
+/// All signatures a case can use, over the real sighash of `tx`.
+pub struct Sigs {
+    pub ecdsa: BTreeMap<usize, bitcoin::ecdsa::Signature>,
+    pub tapleaf: BTreeMap<(usize, TapLeafHash), bitcoin::taproot::Signature>,
+    pub tapkey: Option<bitcoin::taproot::Signature>,
+    pub cbmap: Option<BTreeMap<ControlBlock, (ScriptBuf, LeafVersion)>>,
+}
+
+/// Sign with every key of the case. `signer` produces the ECDSA signature (the `sat` engine
+/// uses plain RFC6979 signing; the `ext` engine grinds to the maximal encoded length).
+/// HASH / SIGK lines for the driver are appended to `out`.
+pub fn sign_case(
+    w: &World,
+    c: &Case,
+    tx: &Transaction,
+    value: Amount,
+    spk: &ScriptBuf,
+    signer: &dyn Fn(&World, usize, Message) -> bitcoin::ecdsa::Signature,
+    out: &mut String,
+) -> Sigs {
+    let prevout = TxOut { value, script_pubkey: spk.clone() };
     let mut ecdsa = BTreeMap::new();
     let mut tapleaf = BTreeMap::new();
     let mut tapkey = None;
-    let mut cache = SighashCache::new(&tx);
+    let mut cache = SighashCache::new(tx);
     let mut cbmap_store = None;
     match c.kind {
         "wsh" | "shwsh" => {
@@ -369,11 +471,29 @@ fn emit_case(w: &World, c: &Case, env: &TxEnv, id: u64, sane: bool, rng: &mut Rn
             let h = cache.p2wsh_signature_hash(0, &ws, value, EcdsaSighashType::All).unwrap();
             let msg = Message::from_digest(h.to_byte_array());
             for &i in c.keys.iter() {
-                ecdsa.insert(i, ecdsa_sig(w, i, msg));
+                ecdsa.insert(i, signer(w, i, msg));
             }
             writeln!(out, "HASH sha256 {} {}", hex(ws.as_bytes()), hex(sha256::Hash::hash(ws.as_bytes()).as_byte_array())).unwrap();
             if c.kind == "shwsh" {
                 let prog = ScriptBuf::new_p2wsh(&ws.wscript_hash());
+                writeln!(out, "HASH hash160 {} {}", hex(prog.as_bytes()), hex(hash160::Hash::hash(prog.as_bytes()).as_byte_array())).unwrap();
+            }
+        }
+        "pkh" => {
+            let h = cache.legacy_signature_hash(0, &spk, EcdsaSighashType::All.to_u32()).unwrap();
+            let msg = Message::from_digest(h.to_byte_array());
+            for &i in c.keys.iter() {
+                ecdsa.insert(i, ecdsa_sig(w, i, msg));
+            }
+        }
+        "wpkh" | "shwpkh" => {
+            let prog = ScriptBuf::new_p2wpkh(&w.pks[c.keys[0]].wpubkey_hash().unwrap());
+            let h = cache.p2wpkh_signature_hash(0, &prog, value, EcdsaSighashType::All).unwrap();
+            let msg = Message::from_digest(h.to_byte_array());
+            for &i in c.keys.iter() {
+                ecdsa.insert(i, ecdsa_sig(w, i, msg));
+            }
+            if c.kind == "shwpkh" {
                 writeln!(out, "HASH hash160 {} {}", hex(prog.as_bytes()), hex(hash160::Hash::hash(prog.as_bytes()).as_byte_array())).unwrap();
             }
         }
@@ -382,7 +502,7 @@ fn emit_case(w: &World, c: &Case, env: &TxEnv, id: u64, sane: bool, rng: &mut Rn
             let h = cache.legacy_signature_hash(0, &sc, EcdsaSighashType::All.to_u32()).unwrap();
             let msg = Message::from_digest(h.to_byte_array());
             for &i in c.keys.iter() {
-                ecdsa.insert(i, ecdsa_sig(w, i, msg));
+                ecdsa.insert(i, signer(w, i, msg));
             }
             if c.kind == "sh" {
                 writeln!(out, "HASH hash160 {} {}", hex(sc.as_bytes()), hex(hash160::Hash::hash(sc.as_bytes()).as_byte_array())).unwrap();
@@ -422,13 +542,11 @@ fn emit_case(w: &World, c: &Case, env: &TxEnv, id: u64, sane: bool, rng: &mut Rn
             }
         }
     }
-    for (i, sig) in ecdsa.iter() {
-        writeln!(out, "SIG {} {}", i, hex(&sig.to_vec())).unwrap();
-    }
-    for ((i, lh), sig) in tapleaf.iter() {
-        writeln!(out, "SIGL {} {} {}", i, hex(lh.as_byte_array()), hex(&sig.to_vec())).unwrap();
-    }
-    // asset subsets
+    Sigs { ecdsa, tapleaf, tapkey, cbmap: cbmap_store }
+}
+
+/// Key subsets tried for a case: all subsets up to 4 keys, otherwise all / none / 14 random.
+pub fn key_masks(c: &Case, rng: &mut Rng) -> Vec<u32> {
     let nk = c.keys.len();
     let mut masks: Vec<u32> = Vec::new();
     if nk <= 4 {
@@ -455,6 +573,41 @@ fn emit_case(w: &World, c: &Case, env: &TxEnv, id: u64, sane: bool, rng: &mut Rn
             masks.push(m);
         }
     }
+    masks
+}
+
+fn emit_case(w: &World, c: &Case, env: &TxEnv, id: u64, sane: bool, rng: &mut Rng, out: &mut String) {
+    let spk = c.desc.script_pubkey();
+    let value = Amount::from_sat(100_000);
+    let (tx, lock, seq) = spend_tx(env);
+    writeln!(out, "CASE {} {} sane={}", id, c.kind, sane as u8).unwrap();
+    writeln!(out, "DESC {}", c.desc).unwrap();
+    for (d, sbytes) in c.ms_dump.iter() {
+        writeln!(out, "MS {}", d).unwrap();
+        writeln!(out, "SCRIPT {}", hex(sbytes)).unwrap();
+    }
+    for e in c.exts.iter() {
+        writeln!(out, "EXT {}", e).unwrap();
+    }
+    writeln!(out, "SPK {}", hex(spk.as_bytes())).unwrap();
+    writeln!(out, "TX 2 {} {}", lock, seq).unwrap();
+    writeln!(
+        out,
+        "LOCKS {} {}",
+        env.lock_time.map(|x| x.to_string()).unwrap_or("-".into()),
+        env.sequence.map(|x| x.to_string()).unwrap_or("-".into())
+    )
+    .unwrap();
+    // signatures
+    let Sigs { ecdsa, tapleaf, tapkey, cbmap: cbmap_store } = sign_case(w, c, &tx, value, &spk, &ecdsa_sig, out);
+    for (i, sig) in ecdsa.iter() {
+        writeln!(out, "SIG {} {}", i, hex(&sig.to_vec())).unwrap();
+    }
+    for ((i, lh), sig) in tapleaf.iter() {
+        writeln!(out, "SIGL {} {} {}", i, hex(lh.as_byte_array()), hex(&sig.to_vec())).unwrap();
+    }
+    // asset subsets
+    let masks = key_masks(c, rng);
     let premasks: Vec<u32> = vec![(1 << N_PRE) - 1, 0, rng.below(1 << N_PRE) as u32];
     let secp = &w.secp;
     for &km in masks.iter() {
@@ -509,6 +662,217 @@ fn emit_case(w: &World, c: &Case, env: &TxEnv, id: u64, sane: bool, rng: &mut Rn
                         }
                         writeln!(out, "{}", l).unwrap();
                     }
+                }
+            }
+        }
+    }
+    // ---- plans (C17): existence, completion, reported locks and sizes, for a few asset sets
+    let mut plan_masks: Vec<u32> = masks.iter().cloned().take(6).collect();
+    if let Some(last) = masks.last() {
+        plan_masks.push(*last);
+    }
+    for &km in plan_masks.iter() {
+        for &pm in premasks.iter().take(2) {
+            let assets = Assets {
+                w,
+                keymask: km,
+                premask: pm,
+                lock_time: env.lock_time.map(absolute::LockTime::from_consensus),
+                sequence: env.sequence.map(Sequence),
+                ecdsa: &ecdsa,
+                tapleaf: &tapleaf,
+                tapkey,
+                internal_idx: c.internal,
+                cbmap: cbmap_store.as_ref(),
+            };
+            for mall in [false, true] {
+                let mode = if mall { "mall" } else { "nonmall" };
+                let r = catch_unwind(AssertUnwindSafe(|| {
+                    let d = c.desc.clone();
+                    let p = if mall { d.into_plan_mall(&assets) } else { d.into_plan(&assets) };
+                    match p {
+                        Err(_) => None,
+                        Ok(plan) => {
+                            let sat = plan.satisfy(&assets);
+                            Some((
+                                plan.absolute_timelock.map(|l| l.to_consensus_u32()),
+                                plan.relative_timelock.map(|l| l.to_sequence().to_consensus_u32()),
+                                plan.witness_size(),
+                                plan.scriptsig_size(),
+                                plan.satisfaction_weight(),
+                                sat,
+                            ))
+                        }
+                    }
+                }));
+                match r {
+                    Err(_) => writeln!(out, "PLAN {} {} {} PANIC", mode, km, pm).unwrap(),
+                    Ok(None) => writeln!(out, "PLAN {} {} {} NONE", mode, km, pm).unwrap(),
+                    Ok(Some((a, rl, ws, ss, wt, sat))) => {
+                        let mut l = format!(
+                            "PLAN {} {} {} OK {} {} {} {} {}",
+                            mode,
+                            km,
+                            pm,
+                            a.map(|x| x.to_string()).unwrap_or("-".into()),
+                            rl.map(|x| x.to_string()).unwrap_or("-".into()),
+                            ws,
+                            ss,
+                            wt
+                        );
+                        match sat {
+                            Err(_) => l.push_str(" SATERR"),
+                            Ok((wit, ssig)) => {
+                                // real serialized sizes
+                                let mut wser = 0usize;
+                                if !wit.is_empty() {
+                                    wser += bitcoin::VarInt(wit.len() as u64).size();
+                                    for it in wit.iter() {
+                                        wser += bitcoin::VarInt(it.len() as u64).size() + it.len();
+                                    }
+                                }
+                                let sser = bitcoin::VarInt(ssig.len() as u64).size() + ssig.len();
+                                l.push_str(&format!(" REAL {} {} SAT {}", wser, sser, wit.len()));
+                                for it in wit.iter() {
+                                    l.push(' ');
+                                    l.push_str(&hex(it));
+                                }
+                                l.push_str(" S ");
+                                l.push_str(&hex(ssig.as_bytes()));
+                            }
+                        }
+                        writeln!(out, "{}", l).unwrap();
+                    }
+                }
+            }
+        }
+    }
+    // ---- plans from the library's own `plan::Assets` (several capability entries per key)
+    //      vs the same capabilities given through a plain AssetProvider (C17 "all Assets")
+    {
+        use miniscript::plan::{AssetProvider, Assets as LibAssets, CanSign, TaprootAvailableLeaves, TaprootCanSign};
+        struct Eff<'b> {
+            w: &'b World,
+            ecdsa: u32,
+            keyspend: u32,
+            leaf: BTreeMap<TapLeafHash, u32>,
+            any_leaf: u32,
+            premask: u32,
+            lock_time: Option<absolute::LockTime>,
+            sequence: Option<relative::LockTime>,
+        }
+        impl<'b> AssetProvider<Key> for Eff<'b> {
+            fn provider_lookup_ecdsa_sig(&self, k: &Key) -> bool { self.ecdsa & (1 << self.w.key_index(k)) != 0 }
+            fn provider_lookup_tap_key_spend_sig(&self, k: &Key) -> Option<usize> {
+                if self.keyspend & (1 << self.w.key_index(k)) != 0 { Some(64) } else { None }
+            }
+            fn provider_lookup_tap_leaf_script_sig(&self, k: &Key, lh: &TapLeafHash) -> Option<usize> {
+                let bit = 1 << self.w.key_index(k);
+                if self.any_leaf & bit != 0 || self.leaf.get(lh).map_or(false, |m| m & bit != 0) { Some(64) } else { None }
+            }
+            fn provider_lookup_sha256(&self, h: &sha256::Hash) -> bool {
+                (0..N_PRE).any(|j| self.premask & (1 << j) != 0 && self.w.sha256_img(j) == *h)
+            }
+            fn provider_lookup_hash256(&self, h: &hash256::Hash) -> bool {
+                (0..N_PRE).any(|j| self.premask & (1 << j) != 0 && self.w.hash256_img(j) == *h)
+            }
+            fn provider_lookup_ripemd160(&self, h: &ripemd160::Hash) -> bool {
+                (0..N_PRE).any(|j| self.premask & (1 << j) != 0 && self.w.ripemd160_img(j) == *h)
+            }
+            fn provider_lookup_hash160(&self, h: &hash160::Hash) -> bool {
+                (0..N_PRE).any(|j| self.premask & (1 << j) != 0 && self.w.hash160_img(j) == *h)
+            }
+            fn check_older(&self, n: relative::LockTime) -> bool { self.sequence.map_or(false, |s| n.is_implied_by(s)) }
+            fn check_after(&self, n: absolute::LockTime) -> bool { self.lock_time.map_or(false, |l| n.is_implied_by(l)) }
+        }
+        let leaf_hashes: Vec<TapLeafHash> = if c.kind == "tr" {
+            c.ms_dump.iter().map(|(_, sb)| TapLeafHash::from_script(&ScriptBuf::from_bytes(sb.clone()), LeafVersion::TapScript)).collect()
+        } else {
+            vec![]
+        };
+        let tapctx = c.kind == "tr";
+        for cfg in 0..4u32 {
+            let mut lib = LibAssets::default();
+            let mut eff = Eff {
+                w, ecdsa: 0, keyspend: 0, leaf: BTreeMap::new(), any_leaf: 0,
+                premask: premasks[(cfg as usize) % premasks.len()],
+                lock_time: env.lock_time.map(absolute::LockTime::from_consensus),
+                sequence: env.sequence.and_then(|s| Sequence(s).to_relative_lock_time()),
+            };
+            lib.absolute_timelock = eff.lock_time;
+            lib.relative_timelock = eff.sequence;
+            for j in 0..N_PRE {
+                if eff.premask & (1 << j) != 0 {
+                    lib.sha256_preimages.insert(w.sha256_img(j));
+                    lib.hash256_preimages.insert(w.hash256_img(j));
+                    lib.ripemd160_preimages.insert(w.ripemd160_img(j));
+                    lib.hash160_preimages.insert(w.hash160_img(j));
+                }
+            }
+            let mut cfgdesc = String::new();
+            for &i in c.keys.iter() {
+                let k = w.key(i, tapctx);
+                let n_entries = 1 + rng.below(2);
+                for _ in 0..n_entries {
+                    let ecdsa = rng.chance(2, 3);
+                    let key_spend = rng.chance(1, 2);
+                    let script_spend = match rng.below(4) {
+                        0 => TaprootAvailableLeaves::None,
+                        1 => TaprootAvailableLeaves::Any,
+                        2 if !leaf_hashes.is_empty() => TaprootAvailableLeaves::Single(leaf_hashes[rng.below(leaf_hashes.len() as u64) as usize]),
+                        _ if !leaf_hashes.is_empty() => TaprootAvailableLeaves::Many(leaf_hashes.iter().cloned().filter(|_| rng.chance(1, 2)).collect()),
+                        _ => TaprootAvailableLeaves::Any,
+                    };
+                    if ecdsa { eff.ecdsa |= 1 << i; }
+                    if key_spend { eff.keyspend |= 1 << i; }
+                    match &script_spend {
+                        TaprootAvailableLeaves::Any => eff.any_leaf |= 1 << i,
+                        TaprootAvailableLeaves::Single(lh) => *eff.leaf.entry(*lh).or_insert(0) |= 1 << i,
+                        TaprootAvailableLeaves::Many(v) => for lh in v { *eff.leaf.entry(*lh).or_insert(0) |= 1 << i },
+                        TaprootAvailableLeaves::None => {}
+                    }
+                    write!(cfgdesc, "k{}:e{}k{}s{:?};", i, ecdsa as u8, key_spend as u8, script_spend).unwrap();
+                    let cs = CanSign { ecdsa, taproot: TaprootCanSign { key_spend, script_spend, sighash_default: true } };
+                    for path in k.full_derivation_paths() {
+                        lib.keys.insert(((k.master_fingerprint(), path), cs.clone()));
+                    }
+                }
+            }
+            for mall in [false, true] {
+                let run = |use_lib: bool| {
+                    catch_unwind(AssertUnwindSafe(|| {
+                        let d = c.desc.clone();
+                        let p = match (use_lib, mall) {
+                            (true, false) => d.into_plan(&lib),
+                            (true, true) => d.into_plan_mall(&lib),
+                            (false, false) => d.into_plan(&eff),
+                            (false, true) => d.into_plan_mall(&eff),
+                        };
+                        p.ok().map(|p| {
+                            (
+                                p.witness_template().iter().map(|x| x.to_string()).collect::<Vec<_>>().join(","),
+                                p.absolute_timelock.map(|l| l.to_consensus_u32()),
+                                p.relative_timelock.map(|l| l.to_sequence().to_consensus_u32()),
+                            )
+                        })
+                    }))
+                };
+                let a = run(true);
+                let b = run(false);
+                let same = match (&a, &b) {
+                    (Ok(x), Ok(y)) => x == y,
+                    _ => false,
+                };
+                if same {
+                    writeln!(out, "APLAN ok").unwrap();
+                } else {
+                    let show = |r: &std::thread::Result<Option<(String, Option<u32>, Option<u32>)>>| match r {
+                        Err(_) => "PANIC".to_string(),
+                        Ok(None) => "none".to_string(),
+                        Ok(Some((t, a, r))) => format!("plan[{}|{:?}|{:?}]", t.replace(' ', ""), a, r),
+                    };
+                    writeln!(out, "HBAD C17 case={} kind={} mode={} what=assets-plan-differs-from-capabilities lock={} seq={} desc={} assets={} lib={} expected={} libkeys={}",
+                        id, c.kind, if mall { "mall" } else { "nonmall" }, lock, seq, c.desc, cfgdesc.replace(' ', ""), show(&a), show(&b), format!("{:?}", lib.keys).replace(' ', "")).unwrap();
                 }
             }
         }
